@@ -11,6 +11,7 @@ import (
 	commonmodels "github.com/lindb/common/models"
 
 	"verifsim/core"
+	"verifsim/h/rows"
 )
 
 // ---- C12: the answer does not depend on sharding, node placement or response order -----------
@@ -56,6 +57,7 @@ func genC12(rng *rand.Rand, tier string) *core.Plan {
 	p.Cfg["multi"] = rng.Intn(2) // statements may select two columns
 	p.Cfg["failleaf"] = rng.Intn(2)
 	p.Cfg["fx"] = rng.Intn(2) // histograms; rate, arithmetic, quantile, functions on last / first fields
+	p.Cfg["nodes"] = rng.Intn(2) // the shards also live on 2..k storage nodes with metadata (ids) of their own
 	return p
 }
 
@@ -91,6 +93,46 @@ func runC12(c *core.RunCtx) {
 		c.Anomaly("create db: %v", err)
 		return
 	}
+	// storage nodes with their own metadata: the k shards are spread over 2..k node databases; every node assigns
+	// its own metric / tag key / tag value / field / series ids (a node has seen other metrics before, and meets
+	// the fields and tags of the metric in the order of its own rows)
+	var nodes []*run
+	var nodeParts [][]int
+	if c.Plan.C("nodes", 0) == 1 {
+		nrng := rand.New(rand.NewSource(int64(c.Plan.C("sseed", 1)) ^ 0x6e6f6465))
+		nn := 2 + nrng.Intn(k-1)
+		nodeParts = make([][]int, nn)
+		for i, s := range nrng.Perm(k) {
+			ni := i
+			if i >= nn {
+				ni = nrng.Intn(nn)
+			}
+			nodeParts[ni] = append(nodeParts[ni], s)
+		}
+		for i := range nodeParts {
+			sort.Ints(nodeParts[i])
+			r := &run{c: c, n: n, db: fmt.Sprintf("n%d%s", i, tag), shards: k, route: route, own: map[int]bool{}}
+			for _, s := range nodeParts[i] {
+				r.own[s] = true
+			}
+			if err := n.CreateDBShards(r.db, nodeParts[i]); err != nil {
+				c.Anomaly("create db: %v", err)
+				return
+			}
+			r.genSeries()
+			// node i has seen i other metrics (with tag keys and fields of their own) before
+			for j := 0; j < i; j++ {
+				noise := rows.Point{Name: fmt.Sprintf("other%d", j), Tags: map[string]string{fmt.Sprintf("k%d", j): "v", "host": "h1"}, Timestamp: Jan1,
+					Fields: []rows.Field{{Name: fmt.Sprintf("g%d", j), Type: fieldSpecs[0].typ, Value: 1}}}
+				if err := n.Write(r.db, nodeParts[i][0], []rows.Point{noise}); err != nil {
+					c.Anomaly("write: %v", err)
+					return
+				}
+			}
+			nodes = append(nodes, r)
+		}
+		c.Sim.Probe(fmt.Sprintf("node-databases-%d", nn))
+	}
 	for i, op := range c.Plan.Ops {
 		if c.Violated() || c.Res.Anomaly != "" {
 			return
@@ -100,19 +142,28 @@ func runC12(c *core.RunCtx) {
 		case "write":
 			ra.write(op)
 			rk.write(op)
+			for _, r := range nodes {
+				r.write(op)
+			}
 		case "flush":
 			ra.flush()
 			rk.flush()
+			for _, r := range nodes {
+				r.flush()
+			}
 		case "jump":
 			ra.jump(op.A)
 			rk.jump(op.A)
+			for _, r := range nodes {
+				r.jump(op.A)
+			}
 		case "query":
-			queryC12(c, ra, rk, op)
+			queryC12(c, ra, rk, op, nodes, nodeParts)
 		}
 	}
 }
 
-func queryC12(c *core.RunCtx, ra, rk *run, op core.Op) {
+func queryC12(c *core.RunCtx, ra, rk *run, op core.Op, nodes []*run, nodeParts [][]int) {
 	rng := rand.New(rand.NewSource(atoi(op.S)))
 	q := genQuery(rng, "C11", c.Plan.C("families", 1), c.Plan.C("multi", 0) == 1, c.Plan.C("fx", 0) == 1)
 	sqlText := q.sql()
@@ -151,6 +202,16 @@ func queryC12(c *core.RunCtx, ra, rk *run, op core.Op) {
 		layouts = append(layouts, layoutDef{fmt.Sprintf("%d shards on leaves %v through an intermediate node", k, part), rk, Layout{Leaves: part, Intermediate: true, Delay: delay}})
 		layouts = append(layouts, layoutDef{"one shard through an intermediate node", ra, Layout{Leaves: [][]int{{0}}, Intermediate: true, Delay: delay}})
 	}
+	if len(nodes) > 0 {
+		var dbs []string
+		for _, r := range nodes {
+			dbs = append(dbs, r.db)
+		}
+		layouts = append(layouts, layoutDef{fmt.Sprintf("%d shards on storage nodes %v with their own metadata", k, nodeParts), rk, Layout{Leaves: nodeParts, LeafDB: dbs, Delay: delay}})
+		if len(q.groupBy) > 0 {
+			layouts = append(layouts, layoutDef{fmt.Sprintf("%d shards on storage nodes %v with their own metadata through an intermediate node", k, nodeParts), rk, Layout{Leaves: nodeParts, LeafDB: dbs, Intermediate: true, Delay: delay}})
+		}
+	}
 	type answer struct {
 		name string
 		err  error
@@ -158,71 +219,78 @@ func queryC12(c *core.RunCtx, ra, rk *run, op core.Op) {
 	}
 	var answers []answer
 	for _, l := range layouts {
-		rs, err := l.r.n.Query(l.r.db, sqlText, l.lay)
-		c.Oracle()
-		answers = append(answers, answer{l.name, err, rs})
-		if err != nil {
-			for _, kk := range rk.unknownKeys(q, before) {
+		l := l
+		stop := func() bool {
+			rs, err := l.r.n.Query(l.r.db, sqlText, l.lay)
+			c.Oracle()
+			answers = append(answers, answer{l.name, err, rs})
+			if err != nil {
+				for _, kk := range rk.unknownKeys(q, before) {
+					if err == nil {
+						break
+					}
+					if strings.Contains(err.Error(), "tag key: "+kk) {
+						err = nil
+					}
+					// every node rejected the statement; the root reports the not-found that arrived last, which
+					// is the stranger's "metric not found" when that one is the slowest
+					if err != nil && l.lay.StrangerDB != "" && strings.Contains(err.Error(), "metric not found") {
+						err = nil
+					}
+				}
 				if err == nil {
-					break
+					c.Sim.Probe("unknown-tag-key")
+					return false
 				}
-				if strings.Contains(err.Error(), "tag key: "+kk) {
-					err = nil
+				if strings.Contains(err.Error(), "not found") && len(exp) == 0 && (!q.two || len(rk.expected(q.second(), before)) == 0) {
+					c.Sim.Probe("empty-result")
+					return false
 				}
-				// every node rejected the statement; the root reports the not-found that arrived last, which
-				// is the stranger's "metric not found" when that one is the slowest
-				if err != nil && l.lay.StrangerDB != "" && strings.Contains(err.Error(), "metric not found") {
-					err = nil
-				}
-			}
-			if err == nil {
-				c.Sim.Probe("unknown-tag-key")
-				continue
-			}
-			if strings.Contains(err.Error(), "not found") && len(exp) == 0 && (!q.two || len(rk.expected(q.second(), before)) == 0) {
-				c.Sim.Probe("empty-result")
-				continue
-			}
-			if q.two && strings.Contains(err.Error(), "not found") {
-				// a statement naming a field that no written point carries is rejected
-				unknown := false
-				for _, qq := range []queryDef{q, q.second()} {
-					written := false
-					for _, p := range rk.points[:before] {
-						written = written || p.field == qq.field
+				if q.two && strings.Contains(err.Error(), "not found") {
+					// a statement naming a field that no written point carries is rejected
+					unknown := false
+					for _, qq := range []queryDef{q, q.second()} {
+						written := false
+						for _, p := range rk.points[:before] {
+							written = written || p.field == qq.field
+						}
+						unknown = unknown || !written
 					}
-					unknown = unknown || !written
-				}
-				if unknown {
-					c.Sim.Probe("unknown-field")
-					continue
-				}
-			}
-			if strings.Contains(err.Error(), "not found") {
-				c.Violate("C12/data-not-found", "%s [%s]: query failed with %q but %d groups are expected", sqlText, l.name, err, len(exp))
-				return
-			}
-			c.Violate("C12/query-failed", "%s [%s]: %v", sqlText, l.name, err)
-			return
-		}
-		rk.compare(sqlText+" ["+l.name+"]", q, exp, rs)
-		if q.two && !c.Violated() {
-			rk.compare(sqlText+" ["+l.name+", 2nd column]", q.second(), rk.expected(q.second(), before), rs)
-		}
-		if c.Violated() {
-			if os.Getenv("VERIF_TRACE") != "" {
-				for sh := 0; sh < k; sh++ {
-					rs1, err1 := rk.n.Query(rk.db, sqlText, Layout{Leaves: [][]int{{sh}}})
-					if err1 != nil {
-						c.Sim.Event("  shard %d alone: %v", sh, err1)
-						continue
-					}
-					for _, s1 := range rs1.Series {
-						c.Sim.Event("  shard %d alone: %v %v", sh, s1.Tags, s1.Fields)
+					if unknown {
+						c.Sim.Probe("unknown-field")
+						return false
 					}
 				}
-				(&run{c: c, n: rk.n, db: rk.db, shards: k}).dumpIndex()
+				if strings.Contains(err.Error(), "not found") {
+					c.Violate("C12/data-not-found", "%s [%s]: query failed with %q but %d groups are expected", sqlText, l.name, err, len(exp))
+					return true
+				}
+				c.Violate("C12/query-failed", "%s [%s]: %v", sqlText, l.name, err)
+				return true
 			}
+			rk.compare(sqlText+" ["+l.name+"]", q, exp, rs)
+			if q.two && !c.Violated() {
+				rk.compare(sqlText+" ["+l.name+", 2nd column]", q.second(), rk.expected(q.second(), before), rs)
+			}
+			if c.Violated() {
+				if os.Getenv("VERIF_TRACE") != "" {
+					for sh := 0; sh < k; sh++ {
+						rs1, err1 := rk.n.Query(rk.db, sqlText, Layout{Leaves: [][]int{{sh}}})
+						if err1 != nil {
+							c.Sim.Event("  shard %d alone: %v", sh, err1)
+							continue
+						}
+						for _, s1 := range rs1.Series {
+							c.Sim.Event("  shard %d alone: %v %v", sh, s1.Tags, s1.Fields)
+						}
+					}
+					(&run{c: c, n: rk.n, db: rk.db, shards: k}).dumpIndex()
+				}
+				return true
+			}
+			return false
+		}()
+		if stop {
 			return
 		}
 	}
@@ -263,6 +331,19 @@ func queryC12(c *core.RunCtx, ra, rk *run, op core.Op) {
 		return (a == "sum" || a == "min" || a == "max") && qq.fn != "min" && qq.fn != "max"
 	}
 	comparable = comparable && valuesOf(q)
+	// a rejection with "not found" where the model expects nothing is the empty answer
+	expEmpty := len(exp) == 0 && (!q.two || len(rk.expected(q.second(), before)) == 0)
+	for i := range answers {
+		if answers[i].err != nil && expEmpty && strings.Contains(answers[i].err.Error(), "not found") {
+			answers[i].err, answers[i].rs = nil, &commonmodels.ResultSet{}
+		}
+	}
+	for i := range answers {
+		if answers[i].err == nil && expEmpty && answers[i].rs != nil {
+			// (interval / start / end of an empty answer are not compared)
+			answers[i].rs = &commonmodels.ResultSet{}
+		}
+	}
 	base := answers[0]
 	for _, a := range answers[1:] {
 		if (a.err == nil) != (base.err == nil) {
@@ -360,3 +441,4 @@ func diffResult(q queryDef, a, b *commonmodels.ResultSet, values bool) string {
 	}
 	return ""
 }
+
